@@ -315,4 +315,225 @@ def PC.label : PC → String
   | .start => "start" | .gocRead => "reg.goc.read" | .gocWrite => "reg.goc.write"
   | .get => "reg.get" | .delete => "reg.delete" | .done => "done"
 
+
+/-! ### lock-aware machine: calls that hold a shard lock across a callback, and sweeps over all shards
+
+`clear`, `visit_*`, `retain_*` walk the shards of a kind (clear: of all three kinds) in index order and take each
+shard's `RwLock` in turn (`write` for clear / retain, `read` for visit); `get_or_create_*` runs the caller's `op`
+closure while it still holds the shard lock (read lock after a hit, write lock after the write section), and
+`visit_*` / `retain_*` run their callback under the shard lock.  A thread that is parked INSIDE such a callback
+holds the lock; every other thread that wants a conflicting lock on the same shard WAITS (`RwLock::read/write`
+block; nothing in the code skips a shard).
+
+One token of the schedule = what a thread does until it next parks: a single lock section for
+`get_or_create / get / delete` (as in the machine above), and for a sweep the maximal run of sections up to the
+first shard whose lock another thread holds in a conflicting mode (there it stays, to be resumed by a later
+token), up to its own callback park, or to its end.  Point ids: `reg.goc.op` (inside `op`), `reg.sweep` (before
+a sweep call / a sweep waiting for a lock), `reg.visit.cb`, `reg.retain.cb` (inside the callback). -/
+
+inductive LCall (K : Type)
+  | goc (kd : Kind) (k : K)
+  | get (kd : Kind) (k : K)
+  | delete (kd : Kind) (k : K)
+  | clear
+  /-- `hold`: the callback parks once, in the last non-empty shard -/
+  | visit (kd : Kind) (hold : Bool)
+  | retain (kd : Kind) (f : K → Nat → Bool) (hold : Bool)
+
+inductive LRes (K : Type)
+  | id (i : Nat) | opt (o : Option Nat) | bool (b : Bool) | unit
+  | listing (l : List (K × Nat))
+
+/-- a shard lock held by a parked thread -/
+structure Lock where
+  kd : Kind
+  idx : Nat
+  write : Bool
+  deriving Repr, DecidableEq
+
+/-- `RwLock`: readers share, a writer excludes everybody -/
+def Lock.conflicts (a b : Lock) : Bool := decide (a.kd = b.kd) && a.idx == b.idx && (a.write || b.write)
+
+inductive LPC
+  | start
+  | gocRead | gocWrite
+  | gocOp (i : Nat)                 -- inside `op`, shard lock held
+  | get | delete
+  | sweep (kd : Kind) (idx : Nat)   -- about to take the lock of shard `idx` of kind `kd`
+  | held (kd : Kind) (idx : Nat)    -- inside the visit / retain callback of that shard, lock held
+  | done
+  deriving Repr, DecidableEq
+
+structure LThread (K : Type) where
+  calls : List (LCall K)
+  pc : LPC
+  results : List (LRes K)
+  holds : Option Lock
+  /-- what the running visit / retain has handed to its callback so far -/
+  acc : List (K × Nat)
+
+structure LSys (K : Type) where
+  reg : Reg K
+  threads : List (LThread K)
+
+def lpcOfCall {K : Type} : LCall K → LPC
+  | .goc _ _ => .gocRead
+  | .get _ _ => .get
+  | .delete _ _ => .delete
+  | .clear => .sweep .counter 0
+  | .visit kd _ => .sweep kd 0
+  | .retain kd _ _ => .sweep kd 0
+
+def LThread.advance {K : Type} (t : LThread K) (r : LRes K) : LThread K :=
+  let rest := t.calls.tail
+  { calls := rest, results := t.results ++ [r], holds := none, acc := [],
+    pc := match rest with | [] => .done | c :: _ => lpcOfCall c }
+
+def mkLThread {K : Type} (calls : List (LCall K)) : LThread K :=
+  { calls, pc := .start, results := [], holds := none, acc := [] }
+
+def LSys.init {K : Type} (count : Nat) (progs : List (List (LCall K))) : LSys K :=
+  { reg := Reg.new count, threads := progs.map mkLThread }
+
+/-- the locks held by a list of threads -/
+def heldLocks {K : Type} (ts : List (LThread K)) : List Lock := ts.flatMap (fun t => t.holds.toList)
+
+/-- the locks held by the threads other than `tid` -/
+def otherLocks {K : Type} (ts : List (LThread K)) (tid : Nat) : List Lock :=
+  heldLocks (ts.take tid) ++ heldLocks (ts.drop (tid + 1))
+
+/-- would `RwLock::read/write` on this shard have to wait? -/
+def mustWait (others : List Lock) (want : Lock) : Bool := others.any (fun l => l.conflicts want)
+
+/-- replace shard `idx` of kind `kd` -/
+def Reg.setIdx {K : Type} (r : Reg K) (kd : Kind) (idx : Nat) (sh : Shard K) : Reg K :=
+  r.set kd (setAt (r.get kd) idx sh)
+
+/-- the lock mode a sweep takes on every shard -/
+def LCall.sweepWrite {K : Type} : LCall K → Bool
+  | .visit _ _ => false
+  | _ => true
+
+def LCall.sweepHold {K : Type} : LCall K → Bool
+  | .visit _ h => h
+  | .retain _ _ h => h
+  | _ => false
+
+/-- one lock section of a sweep on shard `idx` of kind `kd` whose content is `sh`: clear empties it, retain
+    filters it (showing the predicate every entry), visit shows the callback every entry -/
+def sweepSection {K : Type} (c : LCall K) (r : Reg K) (kd : Kind) (idx : Nat) (sh : Shard K) (acc : List (K × Nat)) :
+    Reg K × List (K × Nat) :=
+  match c with
+  | .clear => (r.setIdx kd idx [], acc)
+  | .retain _ f _ => (r.setIdx kd idx (sh.filter (fun e => f e.key e.id)), acc ++ sh.map (fun e => (e.key, e.id)))
+  | .visit _ _ => (r, acc ++ sh.map (fun e => (e.key, e.id)))
+  | _ => (r, acc)
+
+/-- the shard after `idx` in the walk: the next index, and for `clear` the next kind after the last index -/
+def nextSlot (count : Nat) (all : Bool) (kd : Kind) (idx : Nat) : Option (Kind × Nat) :=
+  if idx + 1 < count then some (kd, idx + 1)
+  else if all then
+    match kd with
+    | .counter => some (.gauge, 0)
+    | .gauge => some (.histogram, 0)
+    | .histogram => none
+  else none
+
+def LCall.sweepAll {K : Type} : LCall K → Bool
+  | .clear => true
+  | _ => false
+
+/-- all shards of kind `kd` after `idx` are empty -/
+def laterEmpty {K : Type} (r : Reg K) (kd : Kind) (idx : Nat) : Bool := ((r.get kd).drop (idx + 1)).all (·.isEmpty)
+
+inductive SweepStop
+  | waiting (kd : Kind) (idx : Nat)   -- the lock of this shard is held by another thread: wait
+  | parked (kd : Kind) (idx : Nat)    -- own callback parked in this shard
+  | finished
+  deriving Repr, DecidableEq
+
+/-- the sections of a sweep from shard `(kd, idx)` on, until it has to wait, parks, or ends (`fuel` ≥ number of
+    remaining shards) -/
+def sweepRun {K : Type} (c : LCall K) (hold : Bool) (others : List Lock) :
+    Nat → Reg K → List (K × Nat) → Kind → Nat → Reg K × List (K × Nat) × SweepStop
+  | 0, r, acc, kd, idx => (r, acc, .waiting kd idx)
+  | fuel + 1, r, acc, kd, idx =>
+    if mustWait others { kd, idx, write := c.sweepWrite } then (r, acc, .waiting kd idx) else
+    let sh := (r.get kd).getD idx []
+    let ra := sweepSection c r kd idx sh acc
+    if hold && !sh.isEmpty && laterEmpty r kd idx then (ra.1, ra.2, .parked kd idx) else
+    match nextSlot (r.mask + 1) c.sweepAll kd idx with
+    | none => (ra.1, ra.2, .finished)
+    | some (kd', idx') => sweepRun c hold others fuel ra.1 ra.2 kd' idx'
+
+/-- what a finished sweep returns -/
+def sweepResult {K : Type} (c : LCall K) (acc : List (K × Nat)) : LRes K :=
+  match c with
+  | .clear => .unit
+  | _ => .listing acc
+
+def sweepFuel {K : Type} (r : Reg K) : Nat := 3 * (r.mask + 1) + 1
+
+/-- thread state after a run of sections -/
+def afterSweep {K : Type} (c : LCall K) (t : LThread K) (out : Reg K × List (K × Nat) × SweepStop) : LThread K :=
+  match out.2.2 with
+  | .waiting kd idx => { t with pc := .sweep kd idx, acc := out.2.1, holds := none }
+  | .parked kd idx => { t with pc := .held kd idx, acc := out.2.1, holds := some { kd, idx, write := c.sweepWrite } }
+  | .finished => t.advance (sweepResult c out.2.1)
+
+def isSweep {K : Type} : LCall K → Bool
+  | .clear => true | .visit _ _ => true | .retain _ _ _ => true | _ => false
+
+/-- one token for thread `t`, the other threads holding `others` -/
+def lstepThread {K : Type} (ko : KeyOps K) (r : Reg K) (others : List Lock) (t : LThread K) : Reg K × LThread K :=
+  match t.pc, t.calls with
+  | .start, [] => (r, { t with pc := .done })
+  | .start, c :: _ => (r, { t with pc := lpcOfCall c })
+  | .gocRead, .goc kd k :: _ =>
+    if mustWait others { kd, idx := shardOf r (ko.hash k), write := false } then (r, t) else
+    match readSection ko r kd k with
+    | some i => (r, { t with pc := .gocOp i, holds := some { kd, idx := shardOf r (ko.hash k), write := false } })
+    | none => (r, { t with pc := .gocWrite })
+  | .gocWrite, .goc kd k :: _ =>
+    if mustWait others { kd, idx := shardOf r (ko.hash k), write := true } then (r, t) else
+    let ri := writeSection ko r kd k
+    (ri.1, { t with pc := .gocOp ri.2, holds := some { kd, idx := shardOf r (ko.hash k), write := true } })
+  | .gocOp i, .goc _ _ :: _ => (r, t.advance (.id i))
+  | .get, .get kd k :: _ =>
+    if mustWait others { kd, idx := shardOf r (ko.hash k), write := false } then (r, t) else
+    (r, t.advance (.opt (getExisting ko r kd k)))
+  | .delete, .delete kd k :: _ =>
+    if mustWait others { kd, idx := shardOf r (ko.hash k), write := true } then (r, t) else
+    let rb := delete ko r kd k
+    (rb.1, t.advance (.bool rb.2))
+  | .sweep kd idx, c :: _ =>
+    if isSweep c then
+      let out := sweepRun c c.sweepHold others (sweepFuel r) r t.acc kd idx
+      (out.1, afterSweep c t out)
+    else (r, t)
+  | .held kd idx, c :: _ =>
+    if isSweep c then
+      match nextSlot (r.mask + 1) c.sweepAll kd idx with
+      | none => (r, t.advance (sweepResult c t.acc))
+      | some (kd', idx') =>
+        let out := sweepRun c false others (sweepFuel r) r t.acc kd' idx'
+        (out.1, afterSweep c { t with holds := none } out)
+    else (r, t)
+  | _, _ => (r, t)
+
+def lstep {K : Type} (ko : KeyOps K) (s : LSys K) (tid : Nat) : LSys K :=
+  match s.threads[tid]? with
+  | none => s
+  | some t =>
+    let o := lstepThread ko s.reg (otherLocks s.threads tid) t
+    { reg := o.1, threads := setAt s.threads tid o.2 }
+
+def lrun {K : Type} (ko : KeyOps K) (s : LSys K) (sched : List Nat) : LSys K := sched.foldl (lstep ko) s
+
+def LPC.label (c : Option Bool) : LPC → String
+  | .start => "start" | .gocRead => "reg.goc.read" | .gocWrite => "reg.goc.write" | .gocOp _ => "reg.goc.op"
+  | .get => "reg.get" | .delete => "reg.delete" | .sweep _ _ => "reg.sweep"
+  | .held _ _ => if c == some false then "reg.visit.cb" else "reg.retain.cb"
+  | .done => "done"
+
 end MetricsVerif.Registry
